@@ -31,6 +31,7 @@ type c17Case struct {
 	Alphabet string     `json:"alphabet"` // alnum | base64 | special
 	Fault    *sim.Fault `json:"fault,omitempty"`
 	Seed     int64      `json:"seed"`
+	Names    int        `json:"names,omitempty"` // 2: the info file lists a second device name to fall back to
 }
 
 func (c *c17Case) id() string {
@@ -38,7 +39,11 @@ func (c *c17Case) id() string {
 	if c.Fault != nil {
 		f = fmt.Sprintf("%s@%d", c.Fault.Kind, c.Fault.Ord)
 	}
-	return fmt.Sprintf("%s/%s/cmp=%v/%s/fault=%s", c.Type, c.FrontEnd, c.Compare, c.Alphabet, f)
+	n := ""
+	if c.Names > 1 {
+		n = fmt.Sprintf("/names=%d", c.Names)
+	}
+	return fmt.Sprintf("%s/%s/cmp=%v/%s/fault=%s%s", c.Type, c.FrontEnd, c.Compare, c.Alphabet, f, n)
 }
 
 func randomSecret(rng *rand.Rand, alphabet string, n int) string {
@@ -111,6 +116,9 @@ func buildC17(c *c17Case) (*liveCase, []secret) {
 	pass := randomSecret(rng, c.Alphabet, 20)
 	secrets := []secret{{"password", pass}}
 	lc.Credentials = "* admin " + pass + "\n"
+	if c.Names > 1 {
+		lc.Names = []string{"router", "router-b"}
+	}
 	if lc.Cli != nil {
 		lc.Cli.Password = pass
 		if c.Fault != nil {
@@ -168,7 +176,7 @@ func checkC17(tier, replay string) int {
 	env.BuildRepo(true)
 	rep := ev.New(env, "exploration")
 	rep.Rule = "Live runs for {asa, ios, linux, panos, nsx} x {drc, do-approve} x {approve, compare} x secret alphabet {alnum, base64 with +/=, user-chosen with & % + # = ? / ' \"} " +
-		"x {success, a failure of each kind at each of the first 8 dialogue positions, one mid-script position and the last 3 positions}. " +
+		"x {success, a failure of each kind at each of the first 8 dialogue positions, one mid-script position and the last 3 positions; with the user-chosen alphabet additionally a failure at each of the first 3 positions while the info file lists a second device name to fall back to}. " +
 		"Secrets are unique random tokens per run (password; PAN-OS API key; NSX xsrf token and session cookie). " +
 		"Every file below basedir and the -L log directory (except credentials and code files), stdout and stderr are scanned for each secret plain, " +
 		"QueryEscape'd, PathEscape'd, with lower-case hex escapes, unescaped and without base64 padding. " +
@@ -225,6 +233,19 @@ func checkC17(tier, replay string) int {
 				for o := n - 2; o <= n; o++ {
 					if o > 0 {
 						pos[o] = true
+					}
+				}
+				// A second device name to fall back to when the first
+				// login fails.
+				if al == "special" {
+					for o := 1; o <= 3 && o <= n; o++ {
+						for _, kind := range faultKinds(k.typ) {
+							if kind == "stall" {
+								continue
+							}
+							cases = append(cases, &c17Case{Type: k.typ, FrontEnd: k.fe, Compare: k.cmp, Alphabet: al,
+								Fault: &sim.Fault{Ord: o, Kind: kind}, Seed: rng.Int63(), Names: 2})
+						}
 					}
 				}
 				for o := range pos {
